@@ -1,6 +1,6 @@
 (* C07 — MoreBytesNeeded means "a prefix of something valid"; other errors are final.
    [E] ranges over the twelve entry points of Proofs/Entries.v. *)
-From BS Require Import Impl.Visit Ref.MetaDefs Proofs.ImplRefLeaf Proofs.Transfer Proofs.Entries.
+From BS Require Import Impl.Visit Ref.MetaDefs Proofs.ImplRefLeaf Proofs.Transfer Proofs.Entries Proofs.Examples.
 Open Scope N_scope.
 
 (* if a parse succeeds consuming k bytes, parsing any shorter prefix yields MoreBytesNeeded *)
@@ -35,3 +35,10 @@ Theorem C07_callbacks_prefix : forall E, covered E -> forall brk p b' rr h,
   e_D E (b' ++ rr) ->
   ext_hist (snd (e_visit E brk (sl p b') h)) (snd (e_visit E brk (sl p (b' ++ rr)) h)).
 Proof. intros E _. exact (T_trace_prefix E). Qed.
+
+(* non-vacuity: a parse that succeeds with trailing bytes, and a shorter prefix that needs more *)
+Example C07_example :
+  (exists pr h', visit_transaction never (sl 5 (ex_tx_bytes ++ ex_trailing)) [] = (Ok pr, h') /\ bytes (remaining pr) = ex_trailing) /\
+  fst (visit_transaction never (sl 0 (firstn 40 ex_tx_bytes)) []) = Err MoreBytesNeeded /\
+  fst (visit_transaction never (sl 0 [x01; x00; x00; x00; x00; x07; x00]) []) = Err (UnknownSegwitFlag 7).
+Proof. split; [exact ex_tx_visit|split; [exact ex_truncated|exact ex_unknown_flag]]. Qed.
